@@ -110,6 +110,8 @@ impl PosVector {
 pub struct Cx {
     pub vectors: Vec<PosVector>,
     pub ffi_ok: bool,
+    /// all positions of encodings up to this length, this many sampled ones beyond
+    pub max_positions: usize,
 }
 
 fn find_all(hay: &[u8], needle: &[u8]) -> Vec<usize> {
@@ -369,7 +371,7 @@ pub fn case<T: Ty>(e: &Typed<T>, rng: &mut Rng, rep: &mut Report, cx: &Cx, kind:
 
     // ---- byte side --------------------------------------------------------------
     let n = enc.len();
-    let positions = sample_positions(n, 512, rng);
+    let positions = sample_positions(n, cx.max_positions, rng);
     let mut buf = enc.clone();
     let mut tried = 0u64;
     let mut decoded = 0u64;
